@@ -9,7 +9,7 @@ import (
 func init() { register("C01", propC01) }
 
 func propC01(c *Ctx) {
-	c.Explanation = "Decides structural necessary conditions of the byte-stream property for all inputs and schedules: (R1) the segment invariant 'first byte of data has sequence number sequenceNumber' - every front trim of a segment's data is paired, under the same guards and with the same amount, with an advance of that segment's sequence number (receiver trim of already-received bytes, sender split at window/MSS boundaries, sender partial-ACK trim); (R2) ownership for all schedules: every access to sender/receiver state happens with endpoint.workMu held (must-lockset with held-at-entry fixpoint over the call graph; frozen entry assumptions for the worker goroutines; three reviewed cut edges/exceptions), and the queues shared with the application (rcvList/rcvBufUsed/..., sndQueue/sndBufUsed/..., segmentQueue) are touched only under their mutexes; (R3) hand-off discipline: the complete reviewed site tables of receiver.consumeSegment, receiver.handleRcvdSegment, endpoint.readyToRead, readLocked and the sender's split/advance sites - data reaches the reader only through readyToRead(PushBack) from consumeSegment, exactly when the segment contains rcvNxt, rcvNxt advances by exactly the bytes handed over, parked segments are consumed with their own sequence number and length, the reader takes the front segment view by view; (R4) no raw ordering of sequence numbers in package tcp. NOT decided: that acceptance, trimming amounts, heap order and retransmission produce the right bytes over all fault schedules (numerical relations between runtime values), nothing about the peer or the wire."
+	c.Explanation = "Decides structural necessary conditions of the byte-stream property for all inputs and schedules: (R1) the segment invariant 'first byte of data has sequence number sequenceNumber' - every front trim of a segment's data is paired, under the same guards and with the same amount, with an advance of that segment's sequence number (receiver trim of already-received bytes, sender split at window/MSS boundaries, sender partial-ACK trim); (R2) ownership for all schedules: every access to sender/receiver state happens with endpoint.workMu held (must-lockset with held-at-entry fixpoint over the call graph; frozen entry assumptions for the worker goroutines; three reviewed cut edges/exceptions), and the queues shared with the application (rcvList/rcvBufUsed/..., sndQueue/sndBufUsed/..., segmentQueue) are touched only under their mutexes; (R3) hand-off discipline: the complete reviewed site tables of receiver.consumeSegment, receiver.handleRcvdSegment, endpoint.readyToRead, readLocked and the sender's split/advance sites - data reaches the reader only through readyToRead(PushBack) from consumeSegment, exactly when the segment contains rcvNxt, rcvNxt advances by exactly the bytes handed over, parked segments are consumed with their own sequence number and length, the reader takes the front segment view by view; (R4) no raw ordering of sequence numbers in package tcp. (R5) link typestate: no function reads the list links of a segment after removing it from its list unless segmentList.Remove preserves the removed element's links, so cursor fix-ups such as writeNext = seg.Next() yield the true successor; the sender's sequence variables start at iss+1 (newSender rows of R3). NOT decided: that acceptance, trimming amounts, heap order and retransmission produce the right bytes over all fault schedules (numerical relations between runtime values), nothing about the peer or the wire."
 	c.Assumptions = []string{
 		"newEndpoint returns with workMu locked; protocolMainLoop/protocolListenLoop own it from their first instruction (frozen entry assumption, rule R2-entry)",
 		"field loads of sender/receiver state are stable while workMu is held",
@@ -96,6 +96,14 @@ func propC01(c *Ctx) {
 			{Kind: "store", Target: "tcp.endpoint.rcvClosed", Args: []string{"$0", "true"}, Guards: []string{"($1 == nil)"}, Exact: true, N: 1, Why: "nil marks end of stream"},
 		})
 	}
+	if fn := c.Fn(r3, "tcp.newSender"); fn != nil {
+		var sp []SiteSpec
+		for _, f := range []string{"sndUna", "sndNxt", "sndNxtList"} {
+			sp = append(sp, SiteSpec{Kind: "store", Target: "tcp.sender." + f, Args: []string{"new(tcp.sender)", "($1 + 1)"}, Guards: []string{}, Exact: true, N: 1, Why: "the SYN consumed iss: the first data byte is labelled iss+1"})
+		}
+		sp = append(sp, SiteSpec{Kind: "store", Target: "tcp.sender.maxSentAck", Args: []string{"new(tcp.sender)", "($2 + 1)"}, Guards: []string{}, Exact: true, N: 1, Why: "the peer's SYN consumed irs"})
+		c.CheckSitesPresent(r3, fn, sp)
+	}
 	c.OnlyIn(r3, "tcp rcvList insertion", c.CallSites(func(s string) bool {
 		return strings.HasPrefix(s, "(*tcp.segmentList).Push") || strings.HasPrefix(s, "(*tcp.segmentList).Insert")
 	}), "(*tcp.endpoint).readyToRead", "(*tcp.endpoint).Write", "(*tcp.endpoint).Shutdown", "(*tcp.sender).sendData", "(*tcp.sender).handleWrite", "(*tcp.endpoint).handleWrite", "(*tcp.endpoint).handleClose", "(*tcp.segmentQueue).enqueue", "(*tcp.endpoint).protocolMainLoop")
@@ -122,6 +130,10 @@ func propC01(c *Ctx) {
 			{Kind: "store", Target: "tcp.endpoint.rcvBufUsed", Args: []string{"$0", "($0.rcvBufUsed - builtin:len(" + views + "[" + front + ".viewToDeliver]))"}, Guards: []string{"!($0.rcvBufUsed == 0)"}, Exact: true, N: 1, Why: "accounting shrinks by the delivered view"},
 		})
 	}
+
+	// ---- R5
+	r5 := c.Rule("R5", "typestate", "a segment's list links are not read after its removal unless Remove preserves them (cursor fix-ups such as writeNext = seg.Next())", 3)
+	c.LinkTypestate(r5, "tcp.segmentList", "tcp.segmentEntry")
 
 	// ---- R4
 	r4 := c.Rule("R4", "lint", "no raw ordering of seqnum.Value in package tcp", 10)
